@@ -21,7 +21,7 @@ func init() {
 			"profile yields no result on every channel, and that every OK result passes the authentication table " +
 			"(Enabled / DoH / DoHAuthOnly / userinfo / password set / hash matches). R2: supportsDeviceID is true " +
 			"exactly for DNS, DoH, DoQ, DoT. R3: *agd.DeviceResultOK is constructed only in the device finder. " +
-			"R4: only RequestInfo.DeviceData exposes a profile out of a DeviceResult and handleDeviceResult stops " +
+			"R6: deviceData takes the identifier only from the channel valid for the transport. R4: only RequestInfo.DeviceData exposes a profile out of a DeviceResult and handleDeviceResult stops " +
 			"on error / unknown-dedicated results.",
 		NotCovered: "parsing of identifiers from TLS server names, URL paths, userinfo and EDNS options (string work); " +
 			"the profile database's own lookups (C14); the password-hash comparison itself.",
@@ -31,6 +31,7 @@ func init() {
 			"C03-R3": "who may construct *agd.DeviceResultOK",
 			"C03-R4": "only DeviceResultOK carries a profile/device; handleDeviceResult table",
 			"C03-R5": "deviceByExtID: create an automatic device only for an existing profile without that device",
+			"C03-R6": "identifier channel by transport (DoH: user info > URL path > server name; DoT/DoQ: server name; plain DNS: EDNS option)",
 		},
 		Assumptions: []string{"features read twice in a decision function are not modified in between"},
 	}})
@@ -44,6 +45,7 @@ func runC03(c *an.Ctx) {
 	c.Floor("C03-R3", 2)
 	c.Floor("C03-R4", 5)
 	c.Floor("C03-R5", 1)
+	c.Floor("C03-R6", 1)
 
 	proto := func(name string) int64 {
 		v, ok := c.ConstInt("dnsserver", name)
@@ -241,6 +243,127 @@ func runC03(c *an.Ctx) {
 				return ""
 			}
 			return fmt.Sprintf("[%s] with auto-device creation=%v", want, wantCreate)
+		},
+	})
+
+	// ---- R6: which channel may carry the identifier on which transport
+	idRes := an.Strs("none", "id", "ext", "err")
+	chanResult := func(it *an.Interp, k string) an.AV {
+		switch it.Feature(k).String() {
+		case `"id"`:
+			return an.AV{Kind: an.KTuple, Tup: []an.AV{an.CStr("id:" + k), an.Nil(), an.Nil()}}
+		case `"ext"`:
+			return an.AV{Kind: an.KTuple, Tup: []an.AV{an.CStr(""), an.NonNil("ext:" + k), an.Nil()}}
+		case `"err"`:
+			return an.AV{Kind: an.KTuple, Tup: []an.AV{an.CStr(""), an.Nil(), an.NonNil("err:" + k)}}
+		}
+		return an.AV{Kind: an.KTuple, Tup: []an.AV{an.CStr(""), an.Nil(), an.Nil()}}
+	}
+	decide(c, "C03-R6", dfPkg+"(*Default).deviceData", an.DecideCfg{
+		Dom: an.Domain{"p0.srv.Protocol": an.Ints(pDNS, pDoH, pDoQ, pDoT, pCrypt), "p3.Userinfo": an.NilOrNot, "user": an.Strs("id", "err"),
+			"url": idRes, "sni": idRes, "edns": an.Strs("none", "id", "err"), "len(p0.deviceDomains)": an.Ints(0, 1)},
+		Inline: inlinePkgs([]string{dfPkg + "(*Default).deviceData", "dnsserver.(Protocol).IsStdEncrypted"},
+			dfPkg+"(*Default).deviceDataFromDoHURL", dfPkg+"(*Default).deviceDataFromCliSrvName"),
+		OnCall: func(it *an.Interp, name string, args []an.AV) (an.AV, bool) {
+			switch {
+			case strings.HasSuffix(name, "agd.NewDeviceID"):
+				if it.Feature("user").String() == `"err"` {
+					return an.AV{Kind: an.KTuple, Tup: []an.AV{an.CStr(""), an.NonNil("err:user")}}, true
+				}
+				return an.AV{Kind: an.KTuple, Tup: []an.AV{an.CStr("id:user"), an.Nil()}}, true
+			case strings.HasSuffix(name, ").deviceDataFromDoHURL"):
+				if args[1].String() != "p3.URL" {
+					return an.Sym("another URL"), true
+				}
+				return chanResult(it, "url"), true
+			case strings.HasSuffix(name, ").deviceDataFromCliSrvName"):
+				if args[2].String() != "p3.TLSServerName" {
+					return an.Sym("another server name"), true
+				}
+				return chanResult(it, "sni"), true
+			case strings.HasSuffix(name, "devicefinder.deviceIDFromEDNS"):
+				switch it.Feature("edns").String() {
+				case `"id"`:
+					return an.AV{Kind: an.KTuple, Tup: []an.AV{an.CStr("id:edns"), an.Nil()}}, true
+				case `"err"`:
+					return an.AV{Kind: an.KTuple, Tup: []an.AV{an.CStr(""), an.NonNil("err:edns")}}, true
+				}
+				return an.AV{Kind: an.KTuple, Tup: []an.AV{an.CStr(""), an.Nil()}}, true
+			case strings.HasSuffix(name, "devicefinder.newDeviceDataError"):
+				return an.NonNil("wrapped:" + args[0].Key), true
+			}
+			return an.AV{}, false
+		},
+		Expect: func(f an.Features, o an.AOutcome) string {
+			p := f.I("p0.srv.Protocol")
+			res := func(kind, ch string) string {
+				switch kind {
+				case "id":
+					return fmt.Sprintf("%q, nil, nil", "id:"+ch)
+				case "ext":
+					return `"", nonnil:ext:` + ch + ", nil"
+				case "err":
+					return `"", nil, nonnil:wrapped:err:` + ch
+				}
+				return `"", nil, nil`
+			}
+			sni := func() string {
+				if f.I("len(p0.deviceDomains)") == 0 {
+					return `"", nil, nil`
+				}
+				return res(f.S("sni"), "sni")
+			}
+			want := ""
+			used := func(n string) bool {
+				for _, cn := range o.Calls() {
+					if strings.HasSuffix(cn, n) {
+						return true
+					}
+				}
+				return false
+			}
+			switch p {
+			case pDoH:
+				if !f.IsNil("p3.Userinfo") {
+					if f.S("user") == "err" {
+						want = `"", nil, nonnil:wrapped:err:user`
+					} else {
+						want = `"id:user", nil, nil`
+					}
+					if used("deviceDataFromDoHURL") {
+						return "the URL path is not consulted when basic-auth user info is present"
+					}
+				} else if f.S("url") != "none" {
+					want = res(f.S("url"), "url")
+				} else {
+					want = sni()
+				}
+				if used("deviceIDFromEDNS") {
+					return "EDNS device IDs are not honoured on encrypted transports"
+				}
+			case pDoT, pDoQ:
+				want = sni()
+				if used("deviceDataFromDoHURL") || used("agd.NewDeviceID") || used("deviceIDFromEDNS") {
+					return "only the TLS server name may carry the identifier on DoT / DoQ"
+				}
+			default:
+				switch f.S("edns") {
+				case "id":
+					want = `"id:edns", nil, nil`
+				case "err":
+					want = `"", nil, nonnil:err:edns`
+				default:
+					want = `"", nil, nil`
+				}
+				if used("deviceDataFromCliSrvName") || used("deviceDataFromDoHURL") {
+					return "only the EDNS option may carry the identifier on plain DNS"
+				}
+			}
+			got := o.RetString()
+			if got == want || strings.ReplaceAll(got, "nonnil:wrapped:", "nonnil:") == strings.ReplaceAll(want, "nonnil:wrapped:", "nonnil:") {
+				return ""
+			}
+			return want + " (identifier channel by transport: DoH user info, then URL path, then server name; DoT/DoQ server name; plain DNS EDNS option); got " + got
 		},
 	})
 
